@@ -535,4 +535,5 @@ _targets_c05_with_observers = targets
 
 
 def targets():      # noqa: F811
-    return _targets_c05_with_observers() + [target_derived_views()]
+    from . import frames
+    return _targets_c05_with_observers() + [target_derived_views(), frames.target_data_set_constructors()]
